@@ -5,7 +5,7 @@ import vlib
 MC_CFG = ("CONSTANTS Depth = %d Focus = \"%s\"\nSPECIFICATION Spec20\nINVARIANTS UniqueUserDNs CodesOK%s\n"
           "PROPERTIES AddFound DeleteGone ModifyMissing\nCHECK_DEADLOCK FALSE\n")
 SIM_CFG = "CONSTANTS Depth = %d Focus = \"%s\"\nSPECIFICATION Spec20\nINVARIANTS UniqueUserDNs CodesOK Emit\nCHECK_DEADLOCK FALSE\n"
-TRACE_CFG = "INIT InitT\nNEXT NextT\nINVARIANTS ReplyConforms SearchConforms BindConforms NotStuck\nCHECK_DEADLOCK FALSE\n"
+TRACE_CFG = "INIT InitT\nNEXT NextT\nINVARIANTS ReplyConforms SearchConforms SearchCodesConform GenericSearchConforms TokenGroupsConform BindConforms NotStuck\nCHECK_DEADLOCK FALSE\n"
 
 
 def behaviours_of(out):
